@@ -1,6 +1,7 @@
 import Gtree.Model.Spreader
 import Gtree.Lemmas.ParseDoc
 import Gtree.Generated.Facts
+import Gtree.Lemmas.SplitSim
 /-
   C10 — massive mode is the simple mode up to the order of roots: the parts that are logic.
   (1) Printer: with the mutex held around the printing of a whole root, the output of every schedule
@@ -139,5 +140,32 @@ theorem C10_row_independent_of_interleaving (s : Spelling) (p₁ p₂ : PState) 
   rcases inv₁.spaces with h | h
   · have := (sp₁ h).1; omega
   · exact h
+
+end Gtree
+
+namespace Gtree
+
+/-- C10 (splitter + generator workers): for EVERY sequence of rows – well-formed or not, heading roots, list
+    roots, blank rows anywhere – the blocks the splitter cuts (Model/Split.lean, compared with the real
+    splitter on every run), generated one after the other with a fresh stack each through the shared
+    parser, give the roots the simple generator gives for the whole input, in the same order, or fail with
+    the same first error: cutting the input into root blocks loses and invents nothing. -/
+theorem C10_split_then_generate (rows : List Bytes) :
+    (match genRows {} rows with
+     | (g, none) => genBlocksSeq {} (splitBlocks rows) = (g.finishCur, none, g.p)
+     | (_, some e) => (genBlocksSeq {} (splitBlocks rows)).2.1 = some e) :=
+  split_generate rows
+
+/-- what begins a block is exactly what the parser makes a root of, or rejects for its empty text -/
+theorem C10_block_beginnings_are_roots (p : PState) (l : Bytes) :
+    (rootBeginning l (p.sharp || isSharpRow l) = true →
+      (∃ text, (parse p l).2 = .ok (1, text)) ∨ (parse p l).2 = .error .emptyText) ∧
+    (rootBeginning l (p.sharp || isSharpRow l) = false →
+      ∀ h text, (parse p l).2 = .ok (h, text) → 2 ≤ h) :=
+  (parse_class p l).2
+
+/-- non-vacuity: "- a", "  - b", "- c" is cut into two blocks -/
+example : splitBlocks [[0x2D, 0x20, 0x61], [0x20, 0x20, 0x2D, 0x20, 0x62], [0x2D, 0x20, 0x63]]
+    = [[[0x2D, 0x20, 0x61], [0x20, 0x20, 0x2D, 0x20, 0x62]], [[0x2D, 0x20, 0x63]]] := by decide
 
 end Gtree
